@@ -358,3 +358,99 @@ func grammarString(g *rgrammar) string {
 	}
 	return b.String()
 }
+
+// ---------------------------------------------------------------- well-formed specifications
+
+type wfOpts struct {
+	nNT, nTok, nStr, nExtraRules, nDirectives, depth int
+	ruleHandles                                       bool
+}
+
+func shuffled[T any](r *rng, xs []T) []T {
+	out := append([]T{}, xs...)
+	for i := len(out) - 1; i > 0; i-- {
+		j := r.intn(i + 1)
+		out[i], out[j] = out[j], out[i]
+	}
+	return out
+}
+
+var (
+	wfStrPool   = []string{"a", "b", "c", "+", "-", "*", "(", ")", "if", "then", "else", ";", "=", "{{", "<=", "&&", "!", ",", ".", "[", "]"}
+	wfTokStr    = []string{"while", "do", "end", "::", "=>", "%", "begin"}
+	wfTokRegex  = []string{`[a-z]+`, `[0-9]+`, `"[^"]*"`, `[A-Z][0-9A-Z_]*`, `0x[0-9A-F]+`, `#[a-z]*`, `\x2F\x2F[a-z ]*`}
+	wfTokPredef = []string{"$WS", "$DIGIT", "$LETTER", "$ID", "$NUMBER", "$STRING", "$COMMENT"}
+	wfNTPool    = []string{"expr", "term", "stmt", "a", "b", "list", "x_1", "item", "opt", "star", "plus", "group", "gen1_group", "gen2_opt", "gen_a_star", "gen_plus_star", "gen_term_opt"}
+	wfTokNames  = []string{"ID", "NUM", "STR", "WS", "COMMENT", "OP_1", "KW", "HEX", "EOL"}
+)
+
+// genWellFormedSpec returns a specification that spec.Parse must accept: every token used is defined exactly once,
+// all values distinct, every non-terminal used has a rule, start is present, no handle in two levels.
+func genWellFormedSpec(r *rng, o wfOpts) *rgrammar {
+	nts := append([]string{"start"}, shuffled(r, wfNTPool)[:o.nNT]...)
+	toks := shuffled(r, wfTokNames)[:o.nTok]
+	strs := shuffled(r, wfStrPool)[:max(1, o.nStr)]
+	g := &specGen{r: r, nts: nts, strs: strs, toks: toks, maxDepth: o.depth}
+	out := &rgrammar{Name: pick(r, []string{"g", "calc", "my_lang", "grammars", "x9"})}
+	var decls []rdecl
+	// token declarations with distinct values
+	sv, rv, pv := shuffled(r, wfTokStr), shuffled(r, wfTokRegex), shuffled(r, wfTokPredef)
+	for i, t := range toks {
+		d := rdecl{Kind: "token", Name: t}
+		switch (i + r.intn(3)) % 3 {
+		case 0:
+			d.ValKind, d.Value = "STRING", sv[i%len(sv)]
+			sv = append(sv[:i%len(sv)], sv[i%len(sv)+1:]...)
+		case 1:
+			d.ValKind, d.Value = "REGEX", rv[i%len(rv)]
+			rv = append(rv[:i%len(rv)], rv[i%len(rv)+1:]...)
+		default:
+			d.ValKind, d.Value = "PREDEF", pv[i%len(pv)]
+			pv = append(pv[:i%len(pv)], pv[i%len(pv)+1:]...)
+		}
+		decls = append(decls, d)
+	}
+	// one rule per non-terminal, plus extras
+	for _, n := range nts {
+		decls = append(decls, rdecl{Kind: "rule", Rule: g.rule(n)})
+	}
+	for i := 0; i < o.nExtraRules; i++ {
+		decls = append(decls, rdecl{Kind: "rule", Rule: g.rule(pick(r, nts))})
+	}
+	// directives: each handle at most once overall
+	var termHandles []rhandle
+	for _, s := range strs {
+		termHandles = append(termHandles, rhandle{Term: s, IsStr: true})
+	}
+	for _, t := range toks {
+		termHandles = append(termHandles, rhandle{Term: t})
+	}
+	termHandles = shuffled(r, termHandles)
+	usedRuleHandle := map[string]bool{}
+	for i := 0; i < o.nDirectives; i++ {
+		d := rdecl{Kind: "directive", Assoc: pick(r, []string{"@left", "@right", "@none"})}
+		n := 1 + r.intn(3)
+		for k := 0; k < n; k++ {
+			if o.ruleHandles && r.chance(1, 3) {
+				rl := &rrule{LHS: pick(r, nts)}
+				a, b := pick(r, nts), pick(r, nts)
+				rl.RHS = &rexpr{Kind: xConcat, Kids: []*rexpr{{Kind: xNonTerm, Name: a}, {Kind: xNonTerm, Name: b}}}
+				key := ruleString(rl)
+				if !usedRuleHandle[key] {
+					usedRuleHandle[key] = true
+					d.Handles = append(d.Handles, rhandle{IsRule: true, Rule: rl})
+					continue
+				}
+			}
+			if len(termHandles) > 0 {
+				d.Handles = append(d.Handles, termHandles[0])
+				termHandles = termHandles[1:]
+			}
+		}
+		if len(d.Handles) > 0 {
+			decls = append(decls, d)
+		}
+	}
+	out.Decls = shuffled(r, decls)
+	return out
+}
